@@ -23,3 +23,14 @@ Proof.
   - inversion H; reflexivity.
   - f_equal. apply IH. exact H.
 Qed.
+
+Lemma map_id_in {A} (f : A -> A) l : (forall x, In x l -> f x = x) -> map f l = l.
+Proof.
+  induction l as [|x r IH]; simpl; intros H; [reflexivity|]. rewrite H by (left; reflexivity). f_equal.
+  apply IH. intros; apply H; right; assumption.
+Qed.
+Lemma filter_all {A} (p : A -> bool) l : (forall x, In x l -> p x = true) -> filter p l = l.
+Proof.
+  induction l as [|x r IH]; simpl; intros H; [reflexivity|]. rewrite H by (left; reflexivity). f_equal.
+  apply IH. intros; apply H; right; assumption.
+Qed.
